@@ -19,6 +19,8 @@ SPECS = [
     {'conv': 'cf1d', 'ny': 3, 'nx': 4, 'depth': 2}, {'conv': 'cf2d', 'ny': 3, 'nx': 4, 'bounds': 'vars', 'holes': [[0, 0]], 'time': 1},
     {'conv': 'shoc_simple', 'ny': 3, 'nx': 3, 'bounds': 'vars', 'depth': 2},
     {'conv': 'shoc_standard', 'ny': 3, 'nx': 4}, {'conv': 'ugrid', 'ny': 2, 'nx': 3, 'split': [[0, 0]], 'tables': ['edge_node'], 'start_index': 1},
+    # a mesh without any edge table (no dimension called 'Two') whose data has two time steps and two layers
+    {'conv': 'ugrid', 'ny': 2, 'nx': 3, 'split': [[1, 1]], 'time': 2, 'depth': 2},
 ]
 
 
@@ -167,6 +169,7 @@ def test_pts(inp):
     fdims = list(ems.grid_dimensions[ems.default_grid_kind])
     shape = datasets.expected_grids(spec)['face']
     size = int(numpy.prod(shape))
+    geometry_names = set(map(str, ems.get_all_geometry_names()))
     for api in ('select_points', 'extract_points'):
         f = (lambda: ems.select_points(pts, point_dimension='station', missing_points=inp['policy'])) if api == 'select_points' else \
             (lambda: point_extraction.extract_points(ds, pts, point_dimension='station', missing_points=inp['policy']))
@@ -184,8 +187,12 @@ def test_pts(inp):
         if list(res['station'].values) != kept:
             return f"{api}: kept entries labelled {list(res['station'].values)}, original positions of the hits are {kept}"
         for name, v in ds.data_vars.items():
-            if not set(fdims) <= set(v.dims) or name not in res:
+            if not set(fdims) <= set(v.dims):
                 continue
+            if name not in res:
+                if str(name) in geometry_names:
+                    continue        # the geometry variables are dropped from a selection by design
+                return f'{api}: variable {name!r}, defined on the selected grid, is missing from the result'
             others = [d for d in v.dims if d not in fdims]
             vt = v.transpose(*(others + fdims)).values.reshape([v.sizes[d] for d in others] + [size])
             want = vt[..., [expect[k] for k in kept]]
@@ -298,6 +305,8 @@ def test_df(inp):
         if str(res['name'].values[pos]) != f'p{k}' or float(res['w'].values[pos]) != k * 1.5:
             return f"row {pos} carries table row {res['name'].values[pos]!s}, expected p{k} (table index {list(df.index)})"
         v = ds['temp']
+        if 'temp' not in res:
+            return "variable 'temp', defined on the selected grid, is missing from the result"
         others = [d for d in v.dims if d not in fdims]
         vt = v.transpose(*(others + fdims)).values.reshape([v.sizes[d] for d in others] + [size])
         got = res['temp'].transpose(*(others + ['station'])).values[..., pos]
